@@ -88,8 +88,9 @@ MANIFEST = {
                   "C02), 18 are EncodeContainer / EncodeContainerSW and 2 EncodeHeader / EncodeHeaderSW alone (C03_box_encode_agree), File "
                   "MediaSegment Fragment InitSegment MoofBox are the same text twice and modelled (C03_encode_agree, C03_encode_state_agree); "
                   "MdatBox StsdBox VisualSampleEntryBox and DrefBox TrepBox WvttBox AudioSampleEntryBox (header, fixed bytes, children: "
-                  "C03_pfx_enc_agree) are modelled pairs; explored-only encoder types: 3 (were 9): Av1CBox HvcCBox (same text twice around the "
-                  "codec configuration record's own Encode / EncodeSW) and MetaBox. "
+                  "C03_pfx_enc_agree) are modelled pairs; MetaBox is that layout too (fixed bytes: the version/flags word, "
+                  "none for a QuickTime atom); Av1CBox HvcCBox are the same text twice around ONE inner Encode / EncodeSW of the codec configuration "
+                  "record, whose Encode is the delegation pattern (C03_confrec_enc_agree); explored-only encoder types: 0 (were 9). "
                   "NOT PROVED: that a Go SR decoder classified position-relative IS one of the reader programs the theorem quantifies over "
                   "(the extractor's claim: every use of the reader parameter, transitively through callees, is a listed method; counts bounded "
                   "as stated in harness/c03/srcfacts.go) - tested by the table, the rewrites and the run-time probe, and for tfhd by the P lines. "
@@ -180,7 +181,7 @@ EXPECT_ENC = {
     "SttsBox": "delegating", "EmsgBox": "delegating", "SidxBox": "delegating", "URLBox": "delegating", "ColrBox": "delegating",
     "DinfBox": "container", "TrafBox": "container", "MoovBox": "container", "StblBox": "container", "UdtaBox": "container",
     "VtteBox": "header", "EmebBox": "header",
-    "File": "twin", "Fragment": "twin", "MediaSegment": "twin", "InitSegment": "twin", "MoofBox": "twin", "Av1CBox": "twin", "HvcCBox": "twin",
+    "File": "twin", "Fragment": "twin", "MediaSegment": "twin", "InitSegment": "twin", "MoofBox": "twin", "Av1CBox": "twin-deleg", "HvcCBox": "twin-deleg",
     "MdatBox": "separate", "StsdBox": "separate", "VisualSampleEntryBox": "separate", "AudioSampleEntryBox": "separate",
     "SencBox": "prelude", "DrefBox": "separate", "MetaBox": "separate", "TrepBox": "separate", "WvttBox": "separate",
 }
@@ -255,6 +256,9 @@ MUTATIONS = [
      "enc", "SencBox", ("separate", None)),
     ("vttc-sr-nonempty-children", "mp4/wvtt.go", "\tb := VttcBox{Children: make([]Box, 0, len(children))}", "\tb := VttcBox{Children: make([]Box, 1, len(children)+1)}",
      "dec", "vttc", ("separate", None)),
+    ("hvcc-inner-encode-by-hand", "hevc/hevcdecoderconfigurationrecord.go", "\tsw := bits.NewFixedSliceWriter(int(h.Size()))\n\terr := h.EncodeSW(sw)",
+     "\tsw := bits.NewFixedSliceWriter(int(h.Size()) + 0)\n\terr := h.EncodeSW(sw)",
+     "enc", "HvcCBox", ("twin", None)),
     ("btrt-encode-by-hand", "mp4/btrt.go", "\tsw := bits.NewFixedSliceWriter(int(b.Size()))\n\terr := b.EncodeSW(sw)",
      "\tsw := bits.NewFixedSliceWriter(int(b.Size()) + 0)\n\terr := b.EncodeSW(sw)",
      "enc", "BtrtBox", ("separate", None)),
@@ -311,6 +315,8 @@ def enc_coverage(e, L):
     c = e["class"]
     if c in ("delegating", "container", "header"):
         return True, {"delegating": "enc-delegate", "container": "framing", "header": "framing"}[c]
+    if c == "twin-deleg":
+        return True, "enc-delegate"
     if c == "prelude":
         # the prelude method must be the one whose idempotence the theorem instantiates
         return e["type"] in L["c03_enc_prelude_proved"] and ENC_PRELUDES.get(e["type"]) == e["why"], "enc-delegate"
@@ -403,7 +409,7 @@ def run_mutations(ctx, exe, decs0, encs0):
     base_enc = {e["type"]: e["class"] for e in encs0}
     pre = {"btrt": "delegating", "tfhd": "delegating", "stts": "delegating", "mvhd": "delegating", "ftyp": "delegating", "CoLL": "delegating",
            "colr": "delegating", "kind": "delegating", "emsg": "delegating", "dac3": "body-fn+accerr", "dec3": "body-fn+accerr", "avcC": "body-fn", "hvcC": "body-fn",
-           "styp": "raw-body", "vttc": "container-twin", "SencBox": "prelude", "free": "raw-body", "emeb": "pure-twin", "dinf": "container-twin", "moov": "container-body",
+           "styp": "raw-body", "vttc": "container-twin", "SencBox": "prelude", "HvcCBox": "twin-deleg", "free": "raw-body", "emeb": "pure-twin", "dinf": "container-twin", "moov": "container-body",
            "BtrtBox": "delegating", "DinfBox": "container", "MoofBox": "twin"}
     base = os.path.join(common.BUILD, "c03-mut-%d" % os.getpid())
     res = {"applied": 0, "detected": 0, "skipped": 0, "results": [], "missed": []}
